@@ -145,7 +145,7 @@ pub axiom fn axiom_ne_bytes_h()
 pub uninterp spec fn str_bytes(s: String) -> Seq<u8>;
 pub uninterp spec fn string_of(b: Seq<u8>) -> String;
 pub axiom fn axiom_str_bytes()
-    ensures forall|s: String| #[trigger] string_of(str_bytes(s)) == s && str_bytes(s).len() <= usize::MAX;
+    ensures forall|s: String| string_of(#[trigger] str_bytes(s)) == s && str_bytes(s).len() <= usize::MAX;
 
 /// a string: pointer-width length, (no gap: the unit of u8 is 1), the bytes
 impl DeserializeInner for String {
@@ -261,37 +261,106 @@ pub open spec fn hdr_other_err<R: ReadWithPos>(pre: &R, e: Error) -> bool {
     (e is ReadError && !pre.reliable()) || (e is AlignmentError && pre.is_slice())
 }
 
+/// the specific error of a refusing row (C10), or one of the other permitted errors
+pub open spec fn hdr_err_ok<T: TypeHash + AlignHash>(row: HdrR, e: Error, unreliable: bool, slice: bool) -> bool {
+    let other = (e is ReadError && unreliable) || (e is AlignmentError && slice);
+    match row {
+        HdrR::Pass(n) => other,
+        HdrR::Endian => e is EndiannessError || other,
+        HdrR::Magic(c) => e == Error::MagicCookieError(c) || other,
+        HdrR::Major(m) => e == Error::MajorVersionMismatch(m) || other,
+        HdrR::Minor(m) => e == Error::MinorVersionMismatch(m) || other,
+        HdrR::Width(w) => e == Error::UsizeSizeMismatch(w) || other,
+        HdrR::WrongType(h, name) => other || (e matches Error::WrongTypeHash { ser_type_name, ser_type_hash, self_type_name, self_type_hash }
+            && ser_type_hash == h && self_type_hash == digest(T::th()) && ser_type_name == name && self_type_name == type_name_of::<T>()),
+        HdrR::WrongAlign(h, name) => other || (e matches Error::WrongAlignHash { ser_type_name, ser_align_hash, self_type_name, self_align_hash }
+            && ser_align_hash == h && self_align_hash == digest(T::ah(0)) && ser_type_name == name && self_type_name == type_name_of::<T>()),
+        HdrR::Short => e is ReadError || (e is AlignmentError && slice),
+    }
+}
+
 pub open spec fn hdr_post<T: TypeHash + AlignHash, R: ReadWithPos>(pre: &R, post: &R, r: Result<()>) -> bool {
-    match hdr_table::<T>(pre.rem()) {
-        HdrR::Pass(n) => match r {
-            Ok(()) => post.rem() =~= hdr_rest(pre.rem()) && post.rpos() == pre.rpos() + n,
-            Err(e) => hdr_other_err(pre, e),
-        },
-        HdrR::Endian => r is Err && (r->Err_0 is EndiannessError || hdr_other_err(pre, r->Err_0)),
-        HdrR::Magic(c) => r is Err && (r->Err_0 == Error::MagicCookieError(c) || hdr_other_err(pre, r->Err_0)),
-        HdrR::Major(m) => r is Err && (r->Err_0 == Error::MajorVersionMismatch(m) || hdr_other_err(pre, r->Err_0)),
-        HdrR::Minor(m) => r is Err && (r->Err_0 == Error::MinorVersionMismatch(m) || hdr_other_err(pre, r->Err_0)),
-        HdrR::Width(w) => r is Err && (r->Err_0 == Error::UsizeSizeMismatch(w) || hdr_other_err(pre, r->Err_0)),
-        HdrR::WrongType(h, name) => r is Err && (hdr_other_err(pre, r->Err_0) || (r->Err_0 matches Error::WrongTypeHash { ser_type_name, ser_type_hash, self_type_name, self_type_hash }
-            && ser_type_hash == h && self_type_hash == digest(T::th()) && ser_type_name == name && self_type_name == type_name_of::<T>())),
-        HdrR::WrongAlign(h, name) => r is Err && (hdr_other_err(pre, r->Err_0) || (r->Err_0 matches Error::WrongAlignHash { ser_type_name, ser_align_hash, self_type_name, self_align_hash }
-            && ser_align_hash == h && self_align_hash == digest(T::ah(0)) && ser_type_name == name && self_type_name == type_name_of::<T>())),
-        HdrR::Short => r is Err && (r->Err_0 is ReadError || (r->Err_0 is AlignmentError && pre.is_slice())),
+    match r {
+        Ok(()) => hdr_table::<T>(pre.rem()) matches HdrR::Pass(n)
+            && post.rem() =~= hdr_rest(pre.rem()) && post.rpos() == pre.rpos() + n,
+        Err(e) => hdr_err_ok::<T>(hdr_table::<T>(pre.rem()), e, !pre.reliable(), pre.is_slice()),
     }
 }
 
 // ---- Deserialize: trait, check_header, blanket implementation -------------------------
+// `check_header<T: Deserialize + ..>` is called by the blanket `impl Deserialize for T`:
+// Verus rejects that as a definition cycle. The bound `Deserialize` of check_header
+// (not used by its body) is dropped by a recorded replacement.
+
+/// full-copy result for a whole stream (header, then the value at the offset the header ends)
+pub open spec fn stream_full_post<T: DeserializeInner>(row: HdrR, s: Seq<u8>, r: Result<T>, unreliable: bool) -> bool {
+    match row {
+        HdrR::Pass(n) => match T::parse(hdr_rest(s), n) {
+            PR::Val(v, m) => match r { Ok(x) => x == v, Err(e) => e is ReadError && unreliable },
+            PR::BadTag(t) => r is Err && (r->Err_0 == Error::InvalidTag(t) || (r->Err_0 is ReadError && unreliable)),
+            PR::Short => r is Err && r->Err_0 is ReadError,
+        },
+        _ => true,
+    }
+}
 
 //@item epserde/src/deser/mod.rs props=C01,C02,C10 name=Deserialize <<pub trait Deserialize: DeserializeInner {>>
 //@  drop <<fn load_full(path: impl AsRef<Path>) -> anyhow::Result<Self> {>>
 //@  drop <<fn load_mem<'a>(>>
 //@  drop <<fn load_mmap<'a>(>>
 //@  drop <<fn mmap<'a>(>>
+//@  body_prefix
+//@|    /// the row of the header decision table for this type (ghost)
+//@|    spec fn row(s: Seq<u8>) -> HdrR;
+//@|    /// the specific error of a refusing row
+//@|    spec fn row_err(row: HdrR, e: Error, unreliable: bool, slice: bool) -> bool;
+//@|    /// offsets of the alignment hash stay within usize (machine arithmetic made explicit)
+//@|    spec fn de_ok() -> bool;
+//@  sub <<fn deserialize_full(backend: &mut impl ReadNoStd) -> Result<Self>;>>
+//@  impl_arg
+//@  ret r
+//@  spec
+//@|        requires old(backend).wf(), Self::de_ok(), old(backend).rem().len() <= usize::MAX,
+//@|        ensures
+//@|            // C10: a refused header gives the specific error, never a value
+//@|            !(Self::row(old(backend).rem()) is Pass) ==> r is Err
+//@|                && Self::row_err(Self::row(old(backend).rem()), r->Err_0, !old(backend).reliable(), false),
+//@|            // C01: an accepted header is followed by the grammar's parse of the value
+//@|            stream_full_post::<Self>(Self::row(old(backend).rem()), old(backend).rem(), r, !old(backend).reliable()),
+//@  sub <<fn deserialize_eps(backend: &'_ [u8]) -> Result<Self::DeserType<'_>>;>>
+//@  ret r
+//@  spec
+//@|        requires Self::de_ok(), backend@.len() <= usize::MAX,
+//@|            // truncated input may panic in eps mode (documented, C11)
+//@|            !(Self::row(backend@) is Short),
+//@|            Self::row(backend@) matches HdrR::Pass(n) ==> !(Self::parse(hdr_rest(backend@), n) is Short),
+//@|        ensures
+//@|            !(Self::row(backend@) is Pass) ==> r is Err && Self::row_err(Self::row(backend@), r->Err_0, false, true),
+//@|            // C02: the same grammar as full copy
+//@|            Self::row(backend@) matches HdrR::Pass(n) ==> match Self::parse(hdr_rest(backend@), n) {
+//@|                PR::Val(v, m) => match r { Ok(d) => Self::eps_rel(d, v), Err(e) => e is AlignmentError },
+//@|                PR::BadTag(t) => r is Err && (r->Err_0 == Error::InvalidTag(t) || r->Err_0 is AlignmentError),
+//@|                PR::Short => true,
+//@|            },
+//@end
+
+//@item epserde/src/deser/mod.rs props=C01,C02,C10 name=Deserialize::blanket <<impl<T: TypeHash + AlignHash + DeserializeInner> Deserialize for T {>>
+//@  replace <<check_header::<Self>>> <<check_header::<Self, _>>>
+//@  body_prefix
+//@|    open spec fn row(s: Seq<u8>) -> HdrR { hdr_table::<T>(s) }
+//@|    open spec fn row_err(row: HdrR, e: Error, unreliable: bool, slice: bool) -> bool { hdr_err_ok::<T>(row, e, unreliable, slice) }
+//@|    open spec fn de_ok() -> bool { T::ah_fits(0) }
+//@  sub <<fn deserialize_full(backend: &mut impl ReadNoStd) -> Result<Self> {>>
+//@  impl_arg
+//@  ret r
+//@  sub <<fn deserialize_eps(backend: &'_ [u8]) -> Result<Self::DeserType<'_>> {>>
+//@  ret r
 //@end
 
 //@item epserde/src/deser/mod.rs props=C10,C06,C04 name=check_header <<pub fn check_header<T: Deserialize + TypeHash + AlignHash>(>>
 //@  replace <<core::any::type_name::<T>().to_string()>> <<assumed_type_name::<T>()>>
 //@  replace <<xxhash_rust::xxh3::Xxh3::new()>> <<Xxh3::new()>>
+//@  replace <<T: Deserialize + TypeHash + AlignHash>> <<T: TypeHash + AlignHash>>
 //@  impl_arg
 //@  ret r
 //@  spec
@@ -304,6 +373,258 @@ pub open spec fn hdr_post<T: TypeHash + AlignHash, R: ReadWithPos>(pre: &R, post
 //@|        final(backend).rem().len() <= old(backend).rem().len(),
 //@|        hdr_post::<T, ImplArg0>(old(backend), final(backend), r),
 //@end
+
+
+// ---- write_header ------------------------------------------------------------------------
+
+//@item epserde/src/ser/mod.rs props=C06,C10,C13 name=write_header <<pub fn write_header<T: TypeHash + AlignHash>(backend: &mut impl WriteWithNames) -> Result<()> {>>
+//@  replace <<Result<()>>> <<SResult<()>>>
+//@  replace <<backend.write(>> <<ww_write(backend, >>
+//@  replace <<core::any::type_name::<T>().to_string()>> <<assumed_type_name::<T>()>>
+//@  replace <<xxhash_rust::xxh3::Xxh3::new()>> <<Xxh3::new()>>
+//@  impl_arg
+//@  ret r
+//@  spec
+//@|    requires ser_pre::<ImplArg0>(hdr_enc::<T>(), old(backend)), T::ah_fits(0),
+//@|    ensures ser_post::<ImplArg0>(hdr_enc::<T>(), old(backend), final(backend), r),
+//@  body_prefix
+//@|    let ghost sink0 = backend.sink();
+//@|    let ghost f1 = u64_bytes(MAGIC);
+//@|    let ghost f2 = u16_bytes(VERSION.0);
+//@|    let ghost f3 = u16_bytes(VERSION.1);
+//@|    let ghost f4 = seq![8u8];
+//@|    let ghost f5 = u64_bytes(digest(T::th()));
+//@|    let ghost f6 = u64_bytes(digest(T::ah(0)));
+//@|    let ghost f7 = type_name_of::<T>().enc(29);
+//@|    proof {
+//@|        axiom_ne_bytes_h();
+//@|        lemma_fields_prefix(sink0, f1, f2, f3, f4, f5, f6, f7);
+//@|    }
+//@end
+
+/// C13 for a record of seven consecutive fields: a failure inside the k-th field leaves
+/// the old sink contents followed by a prefix of the whole record
+pub proof fn lemma_fields_prefix(s0: Seq<u8>, f1: Seq<u8>, f2: Seq<u8>, f3: Seq<u8>, f4: Seq<u8>, f5: Seq<u8>, f6: Seq<u8>, f7: Seq<u8>)
+    ensures
+        ({
+            let all = f1 + f2 + f3 + f4 + f5 + f6 + f7;
+            &&& forall|s2: Seq<u8>| is_prefix(s0, s2) && #[trigger] is_prefix(s2, s0 + f1) ==> is_prefix(s2, s0 + all)
+            &&& forall|s2: Seq<u8>| is_prefix(s0 + f1, s2) && #[trigger] is_prefix(s2, s0 + f1 + f2) ==> is_prefix(s0, s2) && is_prefix(s2, s0 + all)
+            &&& forall|s2: Seq<u8>| is_prefix(s0 + f1 + f2, s2) && #[trigger] is_prefix(s2, s0 + f1 + f2 + f3) ==> is_prefix(s0, s2) && is_prefix(s2, s0 + all)
+            &&& forall|s2: Seq<u8>| is_prefix(s0 + f1 + f2 + f3, s2) && #[trigger] is_prefix(s2, s0 + f1 + f2 + f3 + f4) ==> is_prefix(s0, s2) && is_prefix(s2, s0 + all)
+            &&& forall|s2: Seq<u8>| is_prefix(s0 + f1 + f2 + f3 + f4, s2) && #[trigger] is_prefix(s2, s0 + f1 + f2 + f3 + f4 + f5) ==> is_prefix(s0, s2) && is_prefix(s2, s0 + all)
+            &&& forall|s2: Seq<u8>| is_prefix(s0 + f1 + f2 + f3 + f4 + f5, s2) && #[trigger] is_prefix(s2, s0 + f1 + f2 + f3 + f4 + f5 + f6) ==> is_prefix(s0, s2) && is_prefix(s2, s0 + all)
+            &&& forall|s2: Seq<u8>| is_prefix(s0 + f1 + f2 + f3 + f4 + f5 + f6, s2) && #[trigger] is_prefix(s2, s0 + f1 + f2 + f3 + f4 + f5 + f6 + f7) ==> is_prefix(s0, s2) && is_prefix(s2, s0 + all)
+            &&& s0 + f1 + f2 + f3 + f4 + f5 + f6 + f7 =~= s0 + all
+        }),
+{
+    let all = f1 + f2 + f3 + f4 + f5 + f6 + f7;
+    assert forall|s2: Seq<u8>| is_prefix(s0, s2) && #[trigger] is_prefix(s2, s0 + f1) implies is_prefix(s2, s0 + all) by {
+        lemma_err_first(s0, f1, f2 + f3 + f4 + f5 + f6 + f7, s2);
+        assert(f1 + (f2 + f3 + f4 + f5 + f6 + f7) =~= all);
+    }
+    assert forall|s2: Seq<u8>| is_prefix(s0 + f1, s2) && #[trigger] is_prefix(s2, s0 + f1 + f2) implies is_prefix(s0, s2) && is_prefix(s2, s0 + all) by {
+        lemma_err_second(s0, f1, f2, s2);
+        lemma_err_first(s0, f1 + f2, f3 + f4 + f5 + f6 + f7, s2);
+        assert((f1 + f2) + (f3 + f4 + f5 + f6 + f7) =~= all);
+    }
+    assert forall|s2: Seq<u8>| is_prefix(s0 + f1 + f2, s2) && #[trigger] is_prefix(s2, s0 + f1 + f2 + f3) implies is_prefix(s0, s2) && is_prefix(s2, s0 + all) by {
+        assert(s0 + f1 + f2 =~= s0 + (f1 + f2));
+        assert(s0 + f1 + f2 + f3 =~= s0 + (f1 + f2) + f3);
+        lemma_err_second(s0, f1 + f2, f3, s2);
+        lemma_err_first(s0, f1 + f2 + f3, f4 + f5 + f6 + f7, s2);
+        assert((f1 + f2 + f3) + (f4 + f5 + f6 + f7) =~= all);
+    }
+    assert forall|s2: Seq<u8>| is_prefix(s0 + f1 + f2 + f3, s2) && #[trigger] is_prefix(s2, s0 + f1 + f2 + f3 + f4) implies is_prefix(s0, s2) && is_prefix(s2, s0 + all) by {
+        assert(s0 + f1 + f2 + f3 =~= s0 + (f1 + f2 + f3));
+        assert(s0 + f1 + f2 + f3 + f4 =~= s0 + (f1 + f2 + f3) + f4);
+        lemma_err_second(s0, f1 + f2 + f3, f4, s2);
+        lemma_err_first(s0, f1 + f2 + f3 + f4, f5 + f6 + f7, s2);
+        assert((f1 + f2 + f3 + f4) + (f5 + f6 + f7) =~= all);
+    }
+    assert forall|s2: Seq<u8>| is_prefix(s0 + f1 + f2 + f3 + f4, s2) && #[trigger] is_prefix(s2, s0 + f1 + f2 + f3 + f4 + f5) implies is_prefix(s0, s2) && is_prefix(s2, s0 + all) by {
+        assert(s0 + f1 + f2 + f3 + f4 =~= s0 + (f1 + f2 + f3 + f4));
+        assert(s0 + f1 + f2 + f3 + f4 + f5 =~= s0 + (f1 + f2 + f3 + f4) + f5);
+        lemma_err_second(s0, f1 + f2 + f3 + f4, f5, s2);
+        lemma_err_first(s0, f1 + f2 + f3 + f4 + f5, f6 + f7, s2);
+        assert((f1 + f2 + f3 + f4 + f5) + (f6 + f7) =~= all);
+    }
+    assert forall|s2: Seq<u8>| is_prefix(s0 + f1 + f2 + f3 + f4 + f5, s2) && #[trigger] is_prefix(s2, s0 + f1 + f2 + f3 + f4 + f5 + f6) implies is_prefix(s0, s2) && is_prefix(s2, s0 + all) by {
+        assert(s0 + f1 + f2 + f3 + f4 + f5 =~= s0 + (f1 + f2 + f3 + f4 + f5));
+        assert(s0 + f1 + f2 + f3 + f4 + f5 + f6 =~= s0 + (f1 + f2 + f3 + f4 + f5) + f6);
+        lemma_err_second(s0, f1 + f2 + f3 + f4 + f5, f6, s2);
+        lemma_err_first(s0, f1 + f2 + f3 + f4 + f5 + f6, f7, s2);
+    }
+    assert forall|s2: Seq<u8>| is_prefix(s0 + f1 + f2 + f3 + f4 + f5 + f6, s2) && #[trigger] is_prefix(s2, s0 + f1 + f2 + f3 + f4 + f5 + f6 + f7) implies is_prefix(s0, s2) && is_prefix(s2, s0 + all) by {
+        assert(s0 + f1 + f2 + f3 + f4 + f5 + f6 =~= s0 + (f1 + f2 + f3 + f4 + f5 + f6));
+        assert(s0 + f1 + f2 + f3 + f4 + f5 + f6 + f7 =~= s0 + (f1 + f2 + f3 + f4 + f5 + f6) + f7);
+        lemma_err_second(s0, f1 + f2 + f3 + f4 + f5 + f6, f7, s2);
+    }
+    assert(s0 + f1 + f2 + f3 + f4 + f5 + f6 + f7 =~= s0 + all);
+}
+
+
+// ---- Serialize: trait and blanket implementation -------------------------------------------
+// The default method `Serialize::serialize` (WriterWithPos::new, serialize_on_field_write,
+// pos) is not in this unit: its postcondition speaks about the caller's sink after the
+// position-tracking wrapper is gone, which needs a prophetic ghost field threaded through
+// every writer contract; the Kani lemmas hdr_bytes_* and wfail_entry_* drive it.
+
+//@item epserde/src/ser/mod.rs props=C01,C06,C13 name=Serialize <<pub trait Serialize {>>
+//@  replace <<Result<()>>> <<SResult<()>>>
+//@  drop <<fn serialize_with_schema(&self, backend: &mut impl WriteNoStd) -> Result<Schema> {>>
+//@  drop <<fn store(&self, path: impl AsRef<Path>) -> Result<()> {>>
+//@  body_prefix
+//@|    /// the whole stream for `self`, written from offset 0 (ghost)
+//@|    spec fn stream(&self) -> Seq<u8>;
+//@|    /// offsets of the alignment hash stay within usize (machine arithmetic made explicit)
+//@|    spec fn ser_ok(&self) -> bool;
+//@  sub <<fn serialize(&self, backend: &mut impl WriteNoStd) -> Result<usize> {>>
+//@  replace <<Result<usize>>> <<SResult<usize>>>
+//@  impl_arg
+//@  external_body
+//@  sub <<fn serialize_on_field_write(&self, backend: &mut impl WriteWithNames) -> Result<()>;>>
+//@  impl_arg
+//@  ret r
+//@  spec
+//@|        requires ser_pre::<ImplArg0>(self.stream(), old(backend)), old(backend).wpos() == 0, self.ser_ok(),
+//@|        ensures ser_post::<ImplArg0>(self.stream(), old(backend), final(backend), r),
+//@end
+
+//@item epserde/src/ser/mod.rs props=C01,C06,C13 name=Serialize::blanket <<impl<T: SerializeInner> Serialize for T>>
+//@  replace <<Result<()>>> <<SResult<()>>>
+//@  replace <<backend.write(>> <<ww_write(backend, >>
+//@  replace <<write_header::<<Self as SerializeInner>::SerType>>> <<write_header::<<Self as SerializeInner>::SerType, _>>>
+//@  body_prefix
+//@|    open spec fn stream(&self) -> Seq<u8> {
+//@|        hdr_enc::<<T as SerializeInner>::SerType>() + self.enc(hdr_enc::<<T as SerializeInner>::SerType>().len())
+//@|    }
+//@|    open spec fn ser_ok(&self) -> bool { <<T as SerializeInner>::SerType as AlignHash>::ah_fits(0) }
+//@  sub <<fn serialize_on_field_write(&self, backend: &mut impl WriteWithNames) -> Result<()> {>>
+//@  impl_arg
+//@  ret r
+//@  body_prefix
+//@|        let ghost sink0 = backend.sink();
+//@|        let ghost h = hdr_enc::<<T as SerializeInner>::SerType>();
+//@|        let ghost e = self.enc(h.len());
+//@|        proof {
+//@|            assert forall|s2: Seq<u8>| is_prefix(sink0, s2) && #[trigger] is_prefix(s2, sink0 + h)
+//@|                implies is_prefix(s2, sink0 + (h + e)) by { lemma_err_first(sink0, h, e, s2); }
+//@|            assert forall|s2: Seq<u8>| is_prefix(sink0 + h, s2) && #[trigger] is_prefix(s2, sink0 + h + e)
+//@|                implies is_prefix(sink0, s2) && is_prefix(s2, sink0 + (h + e)) by { lemma_err_second(sink0, h, e, s2); }
+//@|            assert(sink0 + h + e =~= sink0 + (h + e));
+//@|        }
+//@end
+
+// =========================================================================
+// whole-stream lemmas: what the writer contract and the reader contract give together
+// =========================================================================
+
+/// xxh3 is assumed collision-free on feeds (the only way a 64-bit digest can carry C04)
+pub axiom fn axiom_digest_injective()
+    ensures forall|a: Seq<HItem>, b: Seq<HItem>| #[trigger] digest(a) == #[trigger] digest(b) ==> a == b;
+
+/// the header written for T is accepted when read as T, and the reader resumes right after it
+pub proof fn lemma_hdr_accepts<T: TypeHash + AlignHash>(rest: Seq<u8>)
+    ensures hdr_table::<T>(hdr_enc::<T>() + rest) == HdrR::Pass(hdr_enc::<T>().len()),
+        hdr_rest(hdr_enc::<T>() + rest) =~= rest,
+{
+    axiom_ne_bytes_h();
+    axiom_ne_bytes();
+    axiom_str_bytes();
+    let name = type_name_of::<T>();
+    let nb = str_bytes(name);
+    let f1 = u64_bytes(MAGIC);
+    let f2 = u16_bytes(VERSION.0);
+    let f3 = u16_bytes(VERSION.1);
+    let f4 = seq![8u8];
+    let f5 = u64_bytes(digest(T::th()));
+    let f6 = u64_bytes(digest(T::ah(0)));
+    let f7 = usize_bytes(nb.len() as usize) + nb;
+    let s = hdr_enc::<T>() + rest;
+    assert(s =~= f1 + (f2 + (f3 + (f4 + (f5 + (f6 + (f7 + rest)))))));
+    let s1 = s.skip(8);
+    assert(s.take(8) =~= f1);
+    assert(s1 =~= f2 + (f3 + (f4 + (f5 + (f6 + (f7 + rest))))));
+    assert(s1.take(2) =~= f2);
+    let s2 = s1.skip(2);
+    assert(s2 =~= f3 + (f4 + (f5 + (f6 + (f7 + rest)))));
+    assert(s2.take(2) =~= f3);
+    let s3 = s2.skip(2);
+    assert(s3 =~= f4 + (f5 + (f6 + (f7 + rest))));
+    assert(s3.take(1) =~= f4);
+    let s4 = s3.skip(1);
+    assert(s4 =~= f5 + (f6 + (f7 + rest)));
+    assert(s4.take(8) =~= f5);
+    let s5 = s4.skip(8);
+    assert(s5 =~= f6 + (f7 + rest));
+    assert(s5.take(8) =~= f6);
+    let s6 = s5.skip(8);
+    assert(s6 =~= f7 + rest);
+    assert(s6.take(8) =~= usize_bytes(nb.len() as usize));
+    assert(s6.subrange(8, 8 + nb.len() as int) =~= nb);
+    assert(s6.skip(8 + nb.len() as int) =~= rest);
+    assert(hdr_enc::<T>().len() == 29 + 8 + nb.len());
+}
+
+/// C01 / C06 for whole streams: the stream written for `v` is accepted by the header
+/// check of its serialization type, and the value that follows parses back to `v`
+pub proof fn lemma_stream_rt<T: RoundTrip + TypeHash + AlignHash>(v: T, rest: Seq<u8>)
+    ensures
+        hdr_table::<T>(hdr_enc::<T>() + v.enc(hdr_enc::<T>().len()) + rest) == HdrR::Pass(hdr_enc::<T>().len()),
+        T::parse(hdr_rest(hdr_enc::<T>() + v.enc(hdr_enc::<T>().len()) + rest), hdr_enc::<T>().len())
+            == PR::Val(v, v.enc(hdr_enc::<T>().len()).len()),
+{
+    let n = hdr_enc::<T>().len();
+    let e = v.enc(n);
+    assert(hdr_enc::<T>() + e + rest =~= hdr_enc::<T>() + (e + rest));
+    lemma_hdr_accepts::<T>(e + rest);
+    v.lemma_rt(n, rest);
+}
+
+/// C04 at the level of streams: a stream written for T, offered to a type U whose
+/// type-hash recipe differs, is refused with the type-hash error carrying T's digest
+/// and T's name - never a value (the recipes and their distinctness are V-TYPEINFO's)
+pub proof fn lemma_cross_type<T: TypeHash + AlignHash, U: TypeHash + AlignHash>(rest: Seq<u8>)
+    requires T::th() != U::th(),
+    ensures hdr_table::<U>(hdr_enc::<T>() + rest) == HdrR::WrongType(digest(T::th()), type_name_of::<T>()),
+{
+    axiom_digest_injective();
+    axiom_ne_bytes_h();
+    axiom_ne_bytes();
+    axiom_str_bytes();
+    let name = type_name_of::<T>();
+    let nb = str_bytes(name);
+    let f1 = u64_bytes(MAGIC);
+    let f2 = u16_bytes(VERSION.0);
+    let f3 = u16_bytes(VERSION.1);
+    let f4 = seq![8u8];
+    let f5 = u64_bytes(digest(T::th()));
+    let f6 = u64_bytes(digest(T::ah(0)));
+    let f7 = usize_bytes(nb.len() as usize) + nb;
+    let s = hdr_enc::<T>() + rest;
+    assert(s =~= f1 + (f2 + (f3 + (f4 + (f5 + (f6 + (f7 + rest)))))));
+    let s1 = s.skip(8);
+    assert(s.take(8) =~= f1);
+    assert(s1 =~= f2 + (f3 + (f4 + (f5 + (f6 + (f7 + rest))))));
+    assert(s1.take(2) =~= f2);
+    let s2 = s1.skip(2);
+    assert(s2 =~= f3 + (f4 + (f5 + (f6 + (f7 + rest)))));
+    assert(s2.take(2) =~= f3);
+    let s3 = s2.skip(2);
+    assert(s3 =~= f4 + (f5 + (f6 + (f7 + rest))));
+    assert(s3.take(1) =~= f4);
+    let s4 = s3.skip(1);
+    assert(s4 =~= f5 + (f6 + (f7 + rest)));
+    assert(s4.take(8) =~= f5);
+    let s5 = s4.skip(8);
+    assert(s5 =~= f6 + (f7 + rest));
+    assert(s5.take(8) =~= f6);
+    let s6 = s5.skip(8);
+    assert(s6 =~= f7 + rest);
+    assert(s6.take(8) =~= usize_bytes(nb.len() as usize));
+    assert(s6.subrange(8, 8 + nb.len() as int) =~= nb);
+}
 
 } // verus!
 fn main() {}
